@@ -119,6 +119,19 @@ const SPECS: &[PropSpec] = &[
         expected_probes: &["shared_forward_attributed"],
     },
     PropSpec {
+        id: "C14",
+        engine: "routersim",
+        level: "exploration",
+        runs_quick: 150000,
+        runs_thorough: 3000000,
+        rule: "a well-behaved publisher/subscriber pair plus 1-4 rogue clients (certainly unsolicited / out-of-order acks, $-filters, subscription id 0, non-UTF-8 topics, topic-alias abuse, packets a broker ignores, stalled consumption, abrupt drops, reconnects) and the late events a finished link can still emit (DeviceData, Ready, Disconnect, PublishWill) in every order relative to connections that reuse its slot; for every protocol-obeying client the C01, C06 and C09 oracles must hold and its connection must never be closed; non-trivial as C01",
+        state_measure: "per router step: hash over connections of (tracker status, scheduled?, #tracked, #parked, inflight bucket, outgoing-buffer bucket, incoming bucket) + groups + graveyard size + channel bucket",
+        real: ROUTER_REAL,
+        stubbed: ROUTER_STUB,
+        assumptions: ROUTER_ASSUME,
+        expected_probes: &["stale_disconnect_on_reused_slot", "tick_event"],
+    },
+    PropSpec {
     id: "C13",
     engine: "logsim",
     level: "exploration",
@@ -150,6 +163,7 @@ pub fn runner(id: &'static str, tier: Tier) -> Box<RunFn> {
         "C03" => Box::new(move |ch, rep| engines::routersim::run(engines::routersim::P::C03, tier, ch, rep)),
         "C06" => Box::new(move |ch, rep| engines::routersim::run(engines::routersim::P::C06, tier, ch, rep)),
         "C09" => Box::new(move |ch, rep| engines::routersim::run(engines::routersim::P::C09, tier, ch, rep)),
+        "C14" => Box::new(move |ch, rep| engines::routersim::run(engines::routersim::P::C14, tier, ch, rep)),
         "C15" => Box::new(move |ch, rep| engines::routersim::run(engines::routersim::P::C15, tier, ch, rep)),
         "C16" => Box::new(move |ch, rep| engines::routersim::run(engines::routersim::P::C16, tier, ch, rep)),
         "C17" => Box::new(move |ch, rep| engines::routersim::run(engines::routersim::P::C17, tier, ch, rep)),
